@@ -350,6 +350,7 @@ type fieldStats struct {
 	checked map[string]int // field -> comparisons with a non-default expected value
 	hidden  map[string]int
 	lists   map[string]int
+	both    int // BGP paths whose API message carried a static payload too
 }
 
 func (fs *fieldStats) add(field string, nondefault bool) {
@@ -395,7 +396,19 @@ func check(c rcase, fs *fieldStats, viol func(clause string, f map[string]string
 	}
 	got := route.RouteFromProtoRoute(&back, c.Dedup)
 	mism := func(ptype, field string, i int, want, have any) {
-		viol("field", vf.F("field", field, "path_type", ptype), fmt.Sprintf("path %d: %s after the round trip = %v, generated %v", i, field, have, want))
+		f, what := vf.F("field", field, "path_type", ptype), ""
+		if i >= 0 && i < len(c.Paths) && c.Paths[i].Redist {
+			f["redistributed_from"], what = "static", " (BGP path redistributed from static, the API message carries both payloads)"
+		}
+		viol("field", f, fmt.Sprintf("path %d%s: %s after the round trip = %v, generated %v", i, what, field, have, want))
+	}
+	// measured on the decoded API message: paths that really carry both a static and a BGP payload
+	for i, s := range c.Paths {
+		if i < len(back.Paths) && s.Redist && back.Paths[i].StaticPath != nil && back.Paths[i].BgpPath != nil && back.Paths[i].Type == api.Path_BGP {
+			fs.mu.Lock()
+			fs.both++
+			fs.mu.Unlock()
+		}
 	}
 	// prefix
 	n++
@@ -579,7 +592,7 @@ func check(c rcase, fs *fieldStats, viol func(clause string, f map[string]string
 
 func main() {
 	vf.Main("C34", "exploration", func(r *vf.Run) {
-		r.Rule("PRNG routes: IPv4/IPv6 prefix of any length (incl. 0.0.0.0, ::, v4-mapped, all-ones), 0-3 paths, 3/4 BGP and 1/4 static; every scalar from {0, max, small, power of two, random}; AS_PATH 0-3 segments (sequence/set, 0-4 ASNs), CLUSTER_LIST, communities, large communities, unknown attributes each nil / empty / 1-4 entries (unknown attribute values nil / empty / 1-300 bytes); hidden reason 0..7 (half of the paths visible); half of the multi-path routes hold a sibling of the first path that differs only in next hop / source / path identifier; dedup flag both ways. Converted with Route.ToProto, proto.Marshal, proto.Unmarshal, RouteFromProtoRoute and compared with the generated specification. distinct_nontrivial = distinct routes that contain a BGP path with at least three of {AS_PATH of >=2 segments, CLUSTER_LIST, communities, large communities, unknown attributes} non-empty")
+		r.Rule("PRNG routes: IPv4/IPv6 prefix of any length (incl. 0.0.0.0, ::, v4-mapped, all-ones), 0-3 paths, 3/4 BGP and 1/4 static; every scalar from {0, max, small, power of two, random}; AS_PATH 0-3 segments (sequence/set, 0-4 ASNs), CLUSTER_LIST, communities, large communities, unknown attributes each nil / empty / 1-4 entries (unknown attribute values nil / empty / 1-300 bytes); hidden reason 0..7 (half of the paths visible); one BGP path in five is a static path redistributed into BGP with Path.CheckRedistribute (type BGP, static part kept with the same or another next hop, so the API message carries both payloads; it must come back as a BGP path with every BGP attribute); half of the multi-path routes hold a sibling of the first path that differs only in next hop / source / path identifier; dedup flag both ways. Converted with Route.ToProto, proto.Marshal, proto.Unmarshal, RouteFromProtoRoute and compared with the generated specification. distinct_nontrivial = distinct routes that contain a BGP path with at least three of {AS_PATH of >=2 segments, CLUSTER_LIST, communities, large communities, unknown attributes} non-empty")
 		r.Assume("nil and empty lists are the same value (the API cannot tell them apart)", "only BGP and static paths (the API's Type enum has no other value); next hop and source pointers are non-nil; AS_PATH segment types are sequence and set (the API carries one bool)", "'a hidden path is never reported as visible' is judged on the API message (Path.hidden_reason != HiddenReasonNone), before and after the wire; RouteFromProtoRoute does not read hidden_reason back at all, which the statement does not list among the preserved fields")
 		mk := func(c rcase) func(string, map[string]string, string) {
 			return func(clause string, f map[string]string, detail string) {
@@ -612,5 +625,7 @@ func main() {
 		r.Set("list_presence", fs.lists)
 		r.Count("cluster_list_nonempty", fs.lists["cluster_list:set"])
 		r.Require("cluster_list_nonempty", 100)
+		r.Count("bgp_paths_carrying_static_payload_too", fs.both)
+		r.Require("bgp_paths_carrying_static_payload_too", 100)
 	})
 }
